@@ -478,7 +478,7 @@ def main(tier, seed):
     for p in small:
         jobs.append((p, ["python", "interpreter"]))
     rng = random.Random(seed)
-    nrand = 12 if tier == "quick" else 200
+    nrand = 12 if tier == "quick" else 60
     g = pg.ProgGen(rng, max_ops=4, multi_phase=True)
     for i in range(nrand):
         jobs.append((g.program(i), ["python", "interpreter"]))
